@@ -153,6 +153,18 @@ def replay_eta(args):
 REPLAYERS = {"cell": replay_cell, "eta": replay_eta}
 
 
+def float_pairs_cell(args):
+    cell = dict(args["cell"])
+    cell["ZMq"] = tuple(cell["ZMq"])
+    if "pids" in cell:
+        cell["pids"] = tuple(cell["pids"])
+    with cm.fixed_nf():
+        return pairs_for(cell, cm.ew_params(values=args["params"]), float(args["params"].get("Q2", 10.0)), E=0.0)
+
+
+REPLAYERS["cell:pairs"] = float_pairs_cell
+
+
 def run(chk, only=None):
     import yadism.coefficient_functions as cf
     from yadism.coefficient_functions import coupling_constants as ccmod
@@ -183,7 +195,7 @@ def run(chk, only=None):
             def body():
                 P = cm.ew_params(ctx)
                 Q2 = ctx.var("Q2", 0, None, wlo=1, whi=20000)
-                E = ctx.var("E", None, None, wlo=-1, whi=1)
+                E = ctx.var_w("E", 0)  # witness 0: the float re-run (translator validation, replays) switches the Z off with E = 0.0
                 return pairs_for(cell, P, Q2, E=E)
 
             ex = explore.Explorer(ctx, max_paths=16, timeout_ms=3000)
